@@ -236,7 +236,8 @@ pub fn flatten(grammar_json: &str) -> Result<Flat, String> {
                 if cx.rule_is_lexical(&n) { let id = cx.tok(format!("r:{n}"), 'n', n); extra_refs.push(SymRef::Tok(id)); }
                 else { extra_refs.push(SymRef::Rule(n)); }
             }
-            "STRING" => { let v = e["value"].as_str().unwrap_or("").to_string(); let id = cx.tok(format!("s:{v}"), 'a', v); extra_refs.push(SymRef::Tok(id)); }
+            // a literal that no rule uses is a separator (never a node); one that is also a token of the rules is a visible extra
+            "STRING" => { let v = e["value"].as_str().unwrap_or("").to_string(); if let Some(id) = cx.tok_ids.get(&format!("s:{v}")) { extra_refs.push(SymRef::Tok(*id)); } }
             _ => {}
         }
     }
